@@ -309,7 +309,13 @@ type EncCase struct {
 func genEncCase(t *rapid.T) EncCase {
 	n := rapid.IntRange(1, 5).Draw(t, "n")
 	c := EncCase{AsSlice: rapid.Bool().Draw(t, "asSlice")}
+	withEmpty := rapid.IntRange(0, 3).Draw(t, "withEmpty") == 0
 	for i := 0; i < n; i++ {
+		if withEmpty && rapid.IntRange(0, 2).Draw(t, "empty") == 0 {
+			// a struct whose fields are all empty encodes to a paragraph without fields
+			c.Ps = append(c.Ps, ParaVal{Order: []string{}, Values: map[string]string{}})
+			continue
+		}
 		c.Ps = append(c.Ps, genWriteCase(t).P)
 	}
 	return c
@@ -317,9 +323,15 @@ func genEncCase(t *rapid.T) EncCase {
 
 var specC08Encoder = Register(&Spec[EncCase]{
 	Prop: "C08", Name: "encoder",
-	Rule: "1..5 non-empty paragraphs (C08/write generator) carried by structs embedding control.Paragraph and written through ONE control.Encoder, either by successive Encode(&struct) calls or as one slice. Oracle: the output reads back as the same number of paragraphs with the same field order and values (up to one trailing newline). Non-trivial: >= 2 paragraphs; distinct by paragraph list.",
+	Rule: "1..5 paragraphs (C08/write generator; in a quarter of the cases some of them without any field, as an all-empty struct encodes) carried by structs embedding control.Paragraph and written through ONE control.Encoder, either by successive Encode(&struct) calls or as one slice. Oracle: the output reads back as exactly the paragraphs that have fields, in order, with the same field order and values (up to one trailing newline) - a field-less paragraph has no textual form and must neither appear nor merge its neighbours. Non-trivial: >= 2 paragraphs; distinct by paragraph list.",
 	Check: func(c EncCase, r *Recorder) error {
-		r.Case(jsonKey(c), len(c.Ps) >= 2)
+		hasEmpty := false
+		for _, p := range c.Ps {
+			if len(p.Order) == 0 {
+				hasEmpty = true
+			}
+		}
+		r.Case(jsonKey(c), len(c.Ps) >= 2, map[bool]string{true: "with-empty-paragraphs", false: "all-non-empty"}[hasEmpty])
 		if len(c.Ps) >= 2 {
 			r.Sample(c)
 		}
@@ -347,10 +359,17 @@ var specC08Encoder = Register(&Spec[EncCase]{
 		if err != nil {
 			return errf("encoder output %q does not read back: %v", buf.String(), err)
 		}
-		if len(back) != len(c.Ps) {
-			return errf("%d paragraphs were encoded as %q and read back as %d", len(c.Ps), buf.String(), len(back))
+		// a paragraph without fields has no textual form; what must survive is every paragraph that has fields
+		var nonEmpty []ParaVal
+		for _, p := range c.Ps {
+			if len(p.Order) > 0 {
+				nonEmpty = append(nonEmpty, p)
+			}
 		}
-		for i, p := range c.Ps {
+		if len(back) != len(nonEmpty) {
+			return errf("%d paragraphs with fields (of %d encoded) were written as %q and read back as %d", len(nonEmpty), len(c.Ps), buf.String(), len(back))
+		}
+		for i, p := range nonEmpty {
 			if strings.Join(back[i].Order, "\x00") != strings.Join(p.Order, "\x00") {
 				return errf("paragraph %d fields %q read back as %q (text %q)", i, p.Order, back[i].Order, buf.String())
 			}
